@@ -90,7 +90,9 @@ def run(ctx):
            rec(b"abc", cl=b"Content-Length: -3"), rec(b"abc", cl=b"Content-Length:"), rec(b"abc", cl=b"Content-Length: "), rec(b"abc", cl=b"Content-Length: +3"),
            rec(b"abc", cl=b"Content-Length: 3x"), rec(b"abc", cl=b"content-LENGTH:3"), rec(b"abc", term=b"\r\n\r\r"), rec(b"abc", term=b"\n\n\n\n"),
            rec(b"abc", cl=b"Content-Length: 2"), rec(b"abc", cl=b"Content-Length: 4") + good, rec(b"abc", cl=b"Content-Length: 99999"),
-           good + b"WARC/1.0\r\n", good + b"\r\n", rec(b"abc", cl=b"Content-Length: 0x3"), rec(b"abc", cl=b"Content-Length: 3 ")]
+           good + b"WARC/1.0\r\n", good + b"\r\n", rec(b"abc", cl=b"Content-Length: 0x3"), rec(b"abc", cl=b"Content-Length: 3 "),
+           rec(b"abc", headers=(b"content-length: 9",)), rec(b"abc", headers=(b"CONTENT-LENGTH: 3",)), rec(b"abc", cl=b"CONTENT-LENGTH: 3") + good,
+           rec(b"abc", cl=b"Content-length: 3") + rec(b"", cl=b"content-length: 0")]
     for m in mal:
         ops.append(f"warc.read - {hx(m)}")
         ops.append(f"warc.read 1,1,1,1,1,1,1,1,1,1 {hx(m)}")
@@ -122,6 +124,18 @@ def run(ctx):
         pvlib.report_violation(ctx, "corr:warc.read", {"ops": [q[1][:400] for q in bad[:5]], "impl": x[:400], "model": y[:400],
                                "correspondence": "PV.Warc.records vs WARCReader::Read"}, no_input=True,
                                summary=f"warc model/impl differ: {x[-40:]} vs {y[-40:]}")
+    # lengths no stream can have (around 2^63, around 2^64, and the values for which header + length + 4 wraps to 0..3): an error,
+    # whichever (the model has no memory limit, the code has max_size), and no access outside the buffers
+    hl = len(rec(b"", cl=b"Content-Length: 18446744073709551562")) - 4
+    huge = [2 ** 63 - 1, 2 ** 63, 2 ** 64 - 1, 2 ** 64, 10 ** 20] + [2 ** 64 - hl - 4 + t for t in range(-1, 6)] + [2 ** 64 - hl - 4 - 2 + t for t in range(0, 3)]
+    hops = [f"warc.read {sc} {hx(rec(b'abc', cl=b'Content-Length: %d' % v) + good)}" for v in huge for sc in ("-", "1,1,1,1,1,1")]
+    for o, x in zip(hops, pvlib.run_lines(impl, hops, env=pvlib.san_env())):
+        ctx.count("warc.read.huge-length", 1, [o])
+        ok_ = x.startswith("ok 0 ERR:")
+        if not ok_:
+            pvlib.report_violation(ctx, "warc-huge:" + o[:120], {"ops": [o], "impl": x[:300], "input": unhx(o.split()[2])[:200].decode("latin-1")},
+                                   summary=f"WARC record with {unhx(o.split()[2])[10:60]!r}: {x[:80]} instead of an error")
+            break
     # gzip input
     for _ in range(10 if ctx.tier == "quick" else 100):
         rs = [rec(bytes(rng.randrange(256) for _ in range(rng.randrange(0, 3000)))) for _ in range(rng.randrange(1, 6))]
